@@ -394,7 +394,17 @@ async def run_hist(spec: dict[str, Any], hist: History, ulog: UidLog) -> None:
     if spec.get('script') == 'stale-selection':
         await script_stale_selection(spec, hist, ulog)
         return
-    env = await make_env(spec['backend'])
+    if spec.get('kind') == 'thist':
+        # the maildir backend as deployed: every command in a worker thread
+        from concurrent.futures import ThreadPoolExecutor
+        from pymap.concurrent import Subsystem
+        ex = ThreadPoolExecutor(spec.get('workers', 4))
+        env = await make_env(spec['backend'],
+                             subsystem=Subsystem.for_threading(ex))
+        env.config.apply_context()
+    else:
+        ex = None
+        env = await make_env(spec['backend'])
     try:
         rng = random.Random(spec['seed'])
         sched = sched_from(spec)
@@ -495,6 +505,8 @@ async def run_hist(spec: dict[str, Any], hist: History, ulog: UidLog) -> None:
                     await do_dump(fin)
     finally:
         env.cleanup()
+        if ex is not None:
+            ex.shutdown(wait=False, cancel_futures=True)
 
 
 class C04(Check):
@@ -532,6 +544,18 @@ class C04(Check):
                    'nmsgs': rng.randint(1, 5),
                    'ncmds': rng.randint(3, 10 if backend == 'dict' else 6),
                    'sched': schedule_family(rng, nsess)}
+        # maildir with its real worker threads (sampled, not reproducible)
+        import os
+        nthr = (40 if tier == 'quick' else 1500) \
+            if os.environ.get('VF_C04_THREADS') == '1' else 0
+        for i in range(nthr):
+            yield {'kind': 'thist', 'seed': seed * 1_000_003 + 500_000 + i,
+                   'backend': rng.choice(['maildir', 'maildir-fs']),
+                   'nsess': rng.choice([2, 3, 3, 4]),
+                   'workers': rng.choice([2, 4, 8]),
+                   'nmsgs': rng.randint(1, 4),
+                   'ncmds': rng.randint(4, 8),
+                   'sched': schedule_family(rng, 3)}
         for h in range(ncrash):
             for j in range(8):
                 yield {'kind': 'crash', 'hseed': seed * 1_000_003 + h,
@@ -548,10 +572,38 @@ class C04(Check):
         async def main(loop: L.CtlLoop) -> None:
             await run_hist(spec, hist, ulog)
 
-        try:
-            L.run(main, max_steps=800_000)
-        except L.Deadlock:
-            hist.aborted = 'deadlock'
+        if spec.get('kind') == 'thist':
+            # real worker threads: the schedule is the operating system's,
+            # the case is not reproducible; call/return order is taken from
+            # a counter read in the loop thread at the client boundary, so
+            # the real-time rules stay sound.  The watchdog only makes the
+            # case inconclusive.
+            from .c02 import _RealLoop
+            rl = _RealLoop()
+            asyncio.set_event_loop(rl)
+            try:
+                rl.run_until_complete(asyncio.wait_for(
+                    run_hist(spec, hist, ulog), 120))
+                ulog.count('threaded_histories')
+            except asyncio.TimeoutError:
+                hist.aborted = 'wall-clock-watchdog'
+            finally:
+                try:
+                    tasks = [t for t in asyncio.all_tasks(rl)
+                             if not t.done()]
+                    for t in tasks:
+                        t.cancel()
+                    if tasks:
+                        rl.run_until_complete(asyncio.wait(tasks, timeout=5))
+                except Exception:
+                    pass
+                asyncio.set_event_loop(None)
+                rl.close()
+        else:
+            try:
+                L.run(main, max_steps=800_000)
+            except L.Deadlock:
+                hist.aborted = 'deadlock'
         ulog.check()
         aborted = hist.aborted
         for s in hist.sessions:
